@@ -89,6 +89,14 @@ FIXED = [
      'query [0,1,2.5], candidate [1,1,2.5,2.5], psi=1 (distance 0) pruned by LB_Keogh: missing from the k best', None),
     ('F39', 'C16', 'fix: k-means++ seeding asked numpy for more candidates than series with non-zero weight',
      'KMeans(k=2, initialize_sample_size=2).fit([[0,0],[0,0],[0,1.5,1.5]]) raised ValueError (Fewer non-zero entries in p than size) for some random draws', None),
+    ('F40', 'C18', 'fix: LocalConcurrences looked for the C extension inside the subsequence sub-package',
+     'LocalConcurrences(use_c=True) raised AttributeError (dtw_cc is None: from . import dtw_cc in the sub-package)', None),
+    ('F41', 'C18', 'fix: LocalConcurrences._reset_wp_mask called wps_positivize without the intersection argument',
+     'kbest_matches on a compact alignment raised TypeError (8 of 9 arguments)', None),
+    ('F42', 'C18', 'fix: warping_paths_affinity failed with the default penalty=None', 'dtw.warping_paths_affinity(s1, s2) raised TypeError (unsupported operand None)', None),
+    ('F43', 'C18', 'fix: the C affinity kernels squared the penalty', 'warping_paths_affinity_fast(penalty=.1) differed from the Python matrix (C used .01)', None),
+    ('F44', 'C18', 'fix: the buffer zone of local-concurrence matches flipped signs instead of masking',
+     'kbest_matches(buffer=-1 or 1) on a full matrix: later matches reused cells / ran through -inf cells turned +inf', None),
 ]
 
 OPEN = [
